@@ -256,7 +256,41 @@ def _check_kw_leaf(ex, prov, label, key, shown, leaf):
     from .values import fdiv, fconst, f2i, i2f
     st = ex.st
     typ, scale, raw = leaf["typ"], leaf["scale"], leaf["raw"]
-    if typ == "CH" or raw is None:
+    if raw is None:
+        return
+    if typ == "CH":
+        # text: the field holds the supplied text in the library's text codec (nothing when omitted)
+        p_ = prov.contains(ex.bm, key)
+        if p_ is False:
+            st.prove(f"{label}/C03:field:{shown}", ex.bm.equals(raw, b""), kind="ensures",
+                     detail=f"text field {shown} is empty when omitted", assume_after=False)
+            return
+        v_ = prov._entry(key, "")[1]
+        if isinstance(v_, SStr):
+            want = ex.bm.str_method(v_, "encode", ["utf-8", "backslashreplace"], {})
+            st.prove(f"{label}/C03:field:{shown}", ex.bm.or_(ex.not_(p_), ex.bm.equals(raw, want)), kind="ensures",
+                     detail=f"bytes of {shown} == the supplied text in the library's text codec", assume_after=False)
+            st.prove(f"{label}/C03:field:{shown}:omitted", ex.bm.or_(p_, ex.bm.equals(raw, b"")), kind="ensures",
+                     detail=f"text field {shown} is empty when omitted", assume_after=False)
+        return
+    if typ[0] == "R" and leaf.get("bytes") is not None:
+        from .builtins_model import PACKF
+        n = int(typ[1:4])
+        eff = prov.effective(key, 0.0)
+        if isinstance(eff, SFloat):
+            fb = leaf["bytes"]
+            ok = True
+            for j in range(n):
+                ok = ex.bm.and_(ok, mk_bool(fb.at(j) == PACKF(z3.IntVal(n), eff.e, z3.IntVal(j))))
+            st.prove(f"{label}/C03:field:{shown}", ok, kind="ensures",
+                     detail=f"bytes of {shown} == IEEE-754 encoding of the supplied value (of 0.0 when omitted), unrounded",
+                     assume_after=False)
+        return
+    if typ[0] == "A":
+        n = int(typ[1:4])
+        eff = prov.effective(key, [0] * n)
+        st.prove(f"{label}/C03:field:{shown}", ex.bm.equals(raw, eff), kind="ensures",
+                 detail=f"cells of {shown} == supplied list (zeros when omitted)", assume_after=False)
         return
     if typ == "flag" or typ[0] in "EILU":
         eff = prov.effective(key, 0)
@@ -445,6 +479,56 @@ def instance_label(mode, key):
     return f"init[{MODES[mode]} {key.hex()} {nm}]"
 
 
+def lookup_refused(ex, label, mode, key, payload, exc, prov=None, oblig="C02:conforming-payload-parses"):
+    """the constructor raised before a definition was selected (conforming variant): for a message that has a definition
+    in this mode that is a refusal of a declared message - unless, for multi-layout messages, no selection rule with a
+    definition applies to this payload"""
+    from contracts.oracle import expected_definition_rules
+    st = ex.st
+    ids, _, paytabs = tables()
+    if not (isinstance(key, bytes) and len(key) == 2):
+        return
+    rules = expected_definition_rules(MODES[mode], key, ids)
+    detail = f"the definition lookup refuses a declared message with {exc.cls.__name__}"
+    if rules is None:
+        name = ids.get(key)
+        if name is not None and name in paytabs[mode]:
+            st.prove(f"{label}/{oblig}", False, kind="ensures", detail=detail, assume_after=False)
+        return
+
+    def cond(c):
+        k = c[0]
+        if k == "true":
+            return True
+        if k == "not":
+            return ex.not_(cond(c[1]))
+        if k == "and":
+            return ex.bm.and_(cond(c[1]), cond(c[2]))
+        if k == "len":
+            return mk_bool(zint(payload.length()) == c[1])
+        if k == "byte":
+            return mk_bool(z3.And(zint(payload.length()) > c[1], payload.at(c[1]) == c[2]))
+        if k == "kw":
+            return prov.contains(ex.bm, c[1])
+        if k == "kwval":
+            p_ = prov.contains(ex.bm, c[1])
+            if p_ is False:
+                return False
+            v_ = prov._entry(c[1], None)[1]
+            return ex.bm.and_(p_, ex.bm.equals(v_, c[2])) if isinstance(v_, (SInt, int)) else False
+        return False
+
+    from contracts.oracle import VARIANT_RULES
+    explicit = (MODES[mode], key) in VARIANT_RULES  # rules written per mode; the generic three-byte-key rule is not
+    earlier = False
+    for c, name in rules["payload" if prov is None else "keywords"]:
+        applies = ex.bm.and_(ex.not_(earlier) if earlier is not False else True, cond(c))
+        earlier = ex.bm.or_(earlier, cond(c))
+        if name is not None and (name in paytabs[mode] or (explicit and any(name in t for t in paytabs))):
+            st.prove(f"{label}/{oblig}", ex.not_(applies), kind="ensures",
+                     detail=detail + f" although the selection rule for {name} applies", assume_after=False)
+
+
 def check_variant(ex, label, mode, key, result, payload=None, prov=None):
     """the definition the real selectors returned is the one the restated selection rules prescribe"""
     from contracts.oracle import expected_definition_rules
@@ -453,10 +537,17 @@ def check_variant(ex, label, mode, key, result, payload=None, prov=None):
     if not (isinstance(key, bytes) and len(key) == 2 and isinstance(mode, int)):
         return
     rules = expected_definition_rules(MODES[mode], key, ids)
+    tab = paytabs[mode]
     if rules is None:
+        # a message with one layout per mode: the definition used is this mode's table entry under the message's name
+        name = ids.get(key)
+        want = tab.get(name) if name is not None else None
+        if want is not None:
+            st.prove(f"{label}/C02:variant", want is result, kind="ensures",
+                     detail=f"{MODES[mode]} {name} is decoded / built with the {MODES[mode]} table's entry of that name "
+                            f"(the selector returned {_def_name(result, mode)})", assume_after=False)
         return
     route = "payload" if payload is not None else "keywords"
-    tab = paytabs[mode]
 
     def cond(c):
         k = c[0]
@@ -625,6 +716,8 @@ def init_unit(ctx, res, col, reg, mode, key):
         check_post(ex, reg, contract, finfo, cfr, outcome, lab, obj.id)
         if outcome[0] == "raise":
             mon.conforming_must_parse(ex, outcome[1])
+            if conforming and mon.exp is None and P is not None and isinstance(key, bytes):
+                lookup_refused(ex, lab, mode, key, P, outcome[1])
             return
         mon.finish(ex, obj)
         # inspection of the finished message must not raise (C08); serialize reproduces the frame (C01)
@@ -865,7 +958,8 @@ class KwProvider:
             st.assume(mk_bool(z3.And(raw >= lo, raw < hi)))
             return SFloat(f)
         if typ == "CH":
-            return None
+            from .values import Opaque as _Opq
+            return SStr((_Opq("kw-text-" + tag),))
         n = int(typ[1:4])
         if typ[0] in "XC":
             b = Base("kw_" + tag)
@@ -936,6 +1030,8 @@ class KwProvider:
             return nominal
         if isinstance(key, str) and key in self.anyvals:
             return v if st.branch(p) else nominal  # arbitrary-kind value: no merge with the nominal
+        if isinstance(v, SStr):
+            return v if st.branch(p) else nominal  # text: present or omitted, two paths
         memo = self.__dict__.setdefault("_eff", {})
         mk = id(v)
         if mk in memo:
@@ -1036,6 +1132,9 @@ def kwargs_unit(ctx, res, col, reg, mode, key, flavour="typed"):
             if (pdict is None or cfgval) and exc.cls is ube.UBXMessageError:
                 # no definition can be selected from keywords (payload-only messages, unknown discriminator)
                 st.prove(f"{lab}/C03:selector-rejects-with-UBXMessageError", True, kind="raises")
+                if pdict is None and not cfgval and flavour != "anydisc":
+                    # ... which it may only do when no selection rule with a definition applies to these keywords
+                    lookup_refused(ex, lab, mode, key, None, exc, prov=prov, oblig="C03:in-range-values-accepted")
                 return
             pl = st.rec(obj)["fields"].get("_payload")
             too_long = False
@@ -1096,7 +1195,10 @@ def check_built_payload(ex, obj, prov, pdict, lab, mode, key):
         raw = leaf["raw"]
         if typ == "flag":
             continue
-        if typ == "CH" or name in exp.leaves and typ[0] == "X" and _is_bitfield(pdict, name):
+        if typ != "CH" and typ[0] == "X" and _is_bitfield(pdict, name):
+            continue
+        if typ == "CH" or typ[0] in "RA":
+            _check_kw_leaf(ex, prov, lab, name, name, leaf)  # text, floating point and array fields
             continue
         n = int(typ[1:4])
         if typ[0] in "EILU":
@@ -1191,6 +1293,9 @@ def replay_kwinit(o):
             def gen(entries, suffix, counts):
                 for e in entries:
                     if isinstance(e, Leaf) and e.name.startswith("_HP"):
+                        continue
+                    if isinstance(e, Leaf) and e.typ == "CH":
+                        kw[e.name + suffix] = rnd.choice(["caf\u00e9 x", "plain text", "\u20ac"])
                         continue
                     if isinstance(e, Leaf) and e.typ != "CH" and e.scale is not None and e.typ[0] in "EILU":
                         # scaled field: a value that is an exact multiple of the resolution
